@@ -16,6 +16,7 @@ package engine
 
 import (
 	"errors"
+	"fmt"
 
 	"codeberg.org/TauCeti/mangle-go/ast"
 	"codeberg.org/TauCeti/mangle-go/factstore"
@@ -96,7 +97,11 @@ func (q QueryContext) EvalExternalQuery(query ast.Atom, mode []ast.ArgMode,
 	var filters []ast.BaseTerm
 	for i, arg := range query.Args {
 		if mode[i] == ast.ArgModeInput {
-			inputs = append(inputs, arg.(ast.Constant))
+			c, ok := arg.(ast.Constant)
+			if !ok {
+				return fmt.Errorf("external predicate %v queried with input argument %v that has no value", query.Predicate, arg)
+			}
+			inputs = append(inputs, c)
 		} else {
 			filters = append(filters, arg)
 		}
